@@ -78,6 +78,12 @@ PROPS = {
             part("v2in", "TestVerif_C08_Sweeps", "sweeps", 0, 0, shards=(8, 16), enum=True),
         ],
     },
+    "C09": {
+        "rule": "generated concurrent batches on one shared classifier under the Go race detector (invariant monitor) with result comparison against a sequential reference; see part rule",
+        "assumptions": ["the Go scheduler is not owned by the harness: the race detector makes the verdict independent of the actual interleaving for the code paths executed, result equality under concurrency is sampled"],
+        "timeout": {"quick": 600, "thorough": 3000},
+        "parts": [part("v2in", "TestVerif_C09", "concurrent-match", 6, 96, shards=(2, 8), race=True, prewrite=True, gomaxprocs=16)],
+    },
     "C10": {
         "rule": "structure-aware rapid generation (quick, thorough) and Go native coverage-guided fuzzing through four targets (thorough only) of byte inputs x thresholds in [0,1] x corpora (empty, empty documents, hostile documents, the input itself, full); oracle: no panic (recovered and reported with the input), no hang, public well-formedness predicate on every result",
         "assumptions": ["the full 431-document corpus is combined with thresholds >= 0.5 only (below, every document is scored against every input: a cost question); small corpora cover thresholds down to 0", "a hang is reported only if the in-flight case, replayed alone, exceeds 300 s"],
@@ -100,6 +106,16 @@ PROPS = {
         "assumptions": ["trees are created under the driver's scratch directory; the process working directory is changed for relative spellings (cases run sequentially)", "for trees with txt files deeper than category/name/variant only 'no panic, nil error' is asserted (the statement makes no claim about them)"],
         "parts": [part("v2in", "TestVerif_C12_Trees", "trees", 1200, 16000, shards=(8, 16)),
                   part("ext", "TestVerif_C12_Default", "default-classifier", 0, 0, shards=(4, 16), enum=True)],
+    },
+    "C19": {
+        "rule": "differential: the identify_license binary and backend.ClassifyLicenses run over generated file sets vs the library's Match per file computed in process (stdout multiset, exit status, JSON classifications and Text, independence of -tasks)",
+        "assumptions": ["'reported' is read as 'printed' (Copyright pseudo-matches included)", "file names contain no blanks (the output format is blank separated)", "-tasks >= 1"],
+        "timeout": {"quick": 600, "thorough": 3000},
+        "parts": [
+            part("ext", "TestVerif_C19_CLI", "cli", 64, 640, shards=(8, 16), cli=True),
+            part("ext", "TestVerif_C19_Backend", "backend", 120, 1500, shards=(4, 8)),
+            part("ext", "TestVerif_C19_Backend", "backend-race", 0, 200, shards=(0, 8), race=True, prewrite=True, tiers=["thorough"], env={"VERIF_PART": "backend"}),
+        ],
     },
     "C20": {
         "rule": "rapid-generated operation sequences interpreted against reference models (map / list) with the invariant "
@@ -175,6 +191,16 @@ MANIFEST_TEXT = {
         "level": "Differential testing against a reference construction: generated directory trees x 13 spellings of the directory argument, LoadLicenses vs AddContent per file (keys, token sequences, Match results), and DefaultClassifier vs LoadLicenses(assets) over every embedded document and scenario. Found the path-handling defects F4 (fixed). Bounded exploration.",
         "note": _V2NOTE + " Trees live under the driver's scratch directory; relative spellings change the process working directory (cases run sequentially).",
         "technique": "differential property-based testing (rapid) with generated file-system trees",
+    },
+    "C09": {
+        "level": "Generated concurrent batches (2-64 goroutines, barrier start, mixed Match/MatchFrom, edited inputs that drive the diff library's half-match path) executed under the Go race detector, plus comparison of every concurrent result with a sequential reference. Found the shared-runes race F2 (fixed). The schedule is sampled, not owned; the race detector's happens-before analysis makes the verdict independent of the interleaving for the executed paths.",
+        "note": _V2NOTE + " Race reports need no confirmation (no false positives); the in-flight batch is saved as the replay.",
+        "technique": "generated concurrent workloads under the race detector (invariant monitor) + differential comparison with a sequential reference",
+    },
+    "C19": {
+        "level": "Differential testing of the built binary and of the backend against the library: generated file sets, argument shapes and flag combinations; stdout multiset, exit status, JSON classifications and Text are compared with in-process Match results. Found the 64 KiB line defect F8 (fixed). Bounded exploration; the -tasks fan-out is additionally run under -race in the thorough tier.",
+        "note": "The CLI is built from /repo's working tree by the driver into its scratch directory. Expected results use assets.DefaultClassifier() in the test process. File names contain no blanks.",
+        "technique": "differential property-based testing (rapid) of the CLI binary against the library",
     },
     "C20": {
         "level": "Model-based property testing: thousands of generated operation sequences per container are interpreted against reference models (map / list) with the full invariant checked after every step, plus exhaustive enumeration of all subset pairs x binary operations and of all short action sequences. Bounded exploration, not proof; exhaustive within the enumerated scopes.",
